@@ -39,9 +39,9 @@ type fakeS3 struct {
 	latency bool
 	// bookkeeping for the audit: which invocation last wrote an object, and whether the
 	// harness removed remote objects (then only freshly written results are audited)
-	inv     int
-	putInv  map[string]int
-	lossy   bool
+	inv    int
+	putInv map[string]int
+	lossy  bool
 }
 
 var errS3 = errors.New("fake s3: 503 service unavailable (injected)")
